@@ -22,7 +22,9 @@ import string
 import numpy as np
 
 PROP = 'C20'
-TARGETS = ['T20vr', 'T20uid']
+ALIAS_TAGS = ['content', 'seg_content', 'seg_sop', 'ann_content', 'ann_sop', 'ko_content', 'ko_sop', 'sr_coding', 'sr_content',
+              'sr_sop', 'sr_value_types', 'sr_templates', 'image']
+TARGETS = ['T20vr', 'T20uid'] + ['T20alias_' + t for t in ALIAS_TAGS]
 LEAN_MODULES = ['HdVerif.Props.C20']
 MODEL_MODULES = ['HdVerif.Model.VR', 'HdVerif.Model.Aliasing']
 NAMESPACE = 'HdVerif.C20'
